@@ -343,8 +343,9 @@ impl Prop for SrcProp {
         let root = syn::parse(&c.src);
         if self.which == Which::C13 {
             // the splice must be tree-equivalent "as in C01": every finding recorded for C01 applies
-            // to the text that range formatting returns as well
-            if let Some(id) = env.known.excluded("C01", &c.src, &root, Some(&c.cfg)) {
+            // to the text that range formatting returns as well (for every indent unit: the result is
+            // indented relative to the node's line, not laid out afresh)
+            if let Some(id) = env.known.excluded("C01", &c.src, &root, None) {
                 return Some(id);
             }
             // R14: the node range formatting selects for this request is a math node (it lies inside
